@@ -23,8 +23,14 @@ def run(chk):
         "contains_integer_point, frequency, relation_with ray/line generators: not judged",
     ]
     chk.prove(shapescheck.SHAPES_COQ)
+    if chk.replay:
+        import json
+        rp = json.load(open(chk.replay))
+        out, byid = shapescheck.run_cases(chk, "C04", list(rp.get("case", [])), "replay", owner)
+        shapescheck.account(chk, out, byid, "replay of " + chk.replay)
+        return
     if chk.quick:
-        per_op, nmix = 2, 700
+        per_op, nmix = 12, 2500
     else:
         per_op, nmix = 40, 14000
     lines = []
